@@ -147,6 +147,47 @@ def validate_evidence(doc: dict) -> Optional[str]:
     return None  # no validator available: nothing to report
 
 
+def host_variants(res: Result, prop: str) -> None:
+    """Thorough tier: the whole quick-tier space once more in an interpreter started with -O (assertions compiled out, as a
+    deployment may run it), merged into this result.  The library must not behave differently there."""
+    import sys
+    import tempfile
+
+    fd, tmp = tempfile.mkstemp(prefix=f"vf-{prop}-O-", suffix=".json")
+    os.close(fd)
+    try:
+        env = dict(os.environ)
+        env.pop("PYTHONOPTIMIZE", None)
+        p = subprocess.run([sys.executable, "-O", "-m", "vf.cli", prop, "--tier", "quick", "--as-variant", tmp],
+                           env=env, capture_output=True, text=True, timeout=3 * 3600)
+        try:
+            with open(tmp) as f:
+                out = json.load(f)
+        except Exception:  # noqa: BLE001
+            res.harness_errors.append(f"host variant python -O produced no result (exit {p.returncode}): {(p.stdout + p.stderr)[-300:]}")
+            return
+    finally:
+        try:
+            os.unlink(tmp)
+        except OSError:
+            pass
+    for h in out.get("harness_errors") or []:
+        res.harness_errors.append(f"[python -O] {h}")
+    for v in out.get("violations") or []:
+        rp = v.get("replay")
+        if isinstance(rp, dict):
+            rp = dict(rp, host="python -O")
+        res.add_violation(dict(v["sig"], host="python -O"), "[interpreter started with -O] " + v["message"], rp)
+    extra = max(0, int(out.get("total") or 0) - len(out.get("violations") or []))
+    res.violation_total += extra
+    parts = res.coverage.setdefault("parts", {})
+    if isinstance(parts, dict):
+        parts["host-variant: quick tier under python -O"] = {"evaluations": out.get("evaluations"),
+                                                             "violating_cases": out.get("total")}
+    if isinstance(res.coverage.get("evaluations"), int) and isinstance(out.get("evaluations"), int):
+        res.coverage["evaluations"] += out["evaluations"]
+
+
 def finish(res: Result, tier: str, t0: float) -> int:
     """Match violations against known findings, write replay files and evidence,
     print the protocol lines and return the exit code."""
